@@ -108,6 +108,10 @@ def run_one_case(fn, tape, state, counting=True):
     except Exception as e:
         import hypothesis.errors as he
 
+        if getattr(tape, "stop_exc", None) is not None:
+            # Hypothesis abandoned this example (StopTest) while code under test was
+            # running; whatever was raised while unwinding is not a finding
+            raise tape.stop_exc
         if isinstance(e, he.HypothesisException):
             raise
         kind = classify_exception(e)
